@@ -129,6 +129,31 @@ def build(version, rot=0):
              (enum(b"emix", None, ["DW_FORM_sdata", "DW_FORM_udata"]), "EF 1 1", "EP"), (enum(b"enone", None, ["DW_FORM_data2"]), "EF 0 0", "EP")]
     for e, vctx, _ in enums:
         types.append((e, vctx))
+    e_enc = enum(b"eenc", None, ["DW_FORM_data1"])                      # an enumeration with an encoding of its own
+    e_enc.attrs.append(Attr("DW_AT_encoding", "DW_FORM_data1", C("DW_ATE_unsigned")))
+    e_tdu = enum(b"etd", ty("DW_TAG_typedef", ty("DW_TAG_const_type", t["uchar"]), b"tuc"), ["DW_FORM_sdata"])      # underlying type behind typedef and const
+    e_ptr = enum(b"eptr", ty("DW_TAG_pointer_type", t["signed"]), ["DW_FORM_udata"])                                # underlying "type" without encoding
+    for e in (e_enc, e_tdu, e_ptr):
+        types.append((e, None))
+        types.append((ty("DW_TAG_typedef", e, b"t" + bytes(e.attr("DW_AT_name").value)), None))
+        enums.append((e, None, None))
+
+    # further shapes of type chains; their context is whatever the model of get_type_die makes of them (None here)
+    sub = ty("DW_TAG_subrange_type", t["schar"])
+    types.append((sub, None))
+    types.append((ty("DW_TAG_packed_type", ty("DW_TAG_typedef", sub, b"tsub")), None))
+    types.append((ty("DW_TAG_typedef", ty("DW_TAG_pointer_type", td), b"tptr"), None))                       # typedef of a pointer
+    types.append((ty("DW_TAG_pointer_type", ty("DW_TAG_const_type", t["uchar"])), None))                    # pointer to something signed or not
+    types.append((ty("DW_TAG_const_type", None), None))                                                     # const void
+    types.append((ty("DW_TAG_typedef", None, b"decltype(nullptr)"), None))                                  # a typedef of that name, of nothing
+    types.append((ty("DW_TAG_volatile_type", ty("DW_TAG_unspecified_type", None, b"decltype(nullptr)")), None))
+    types.append((ty("DW_TAG_typedef", ty("DW_TAG_structure_type", None, b"S2"), b"ts"), None))
+    deep = t["bool"]
+    for k in range(12):
+        deep = ty(("DW_TAG_typedef", "DW_TAG_const_type", "DW_TAG_volatile_type", "DW_TAG_restrict_type")[k % 4], deep, b"deep%d" % k if k % 4 == 0 else None)
+    types.append((deep, None))
+    types.append((ty("DW_TAG_array_type", t["signed"]), None))                                              # not peeled: an array of signed is no signed
+    types.append((ty("DW_TAG_typedef", ty("DW_TAG_reference_type", t["signed"]), b"tref"), None))
 
     # DW_AT_const_value: every type context x form x boundary value
     for T, ctx in types:
@@ -322,9 +347,37 @@ def run(ctx):
         dwforest.fix_small_refs(f)
         path = os.path.join(d, "c07-v%d.o" % version)
         write_object(f, path)
+        # the type context of every DW_AT_const_value comes from the model of get_type_die (dw/TypeCtx.v), fed the
+        # type DIEs as laid out; the generator's own idea of it must agree (or the generator is wrong)
+        tl = ["R"]
+        for td in unit.root.walk():
+            if td.tag in ("DW_TAG_base_type", "DW_TAG_typedef", "DW_TAG_const_type", "DW_TAG_volatile_type", "DW_TAG_restrict_type", "DW_TAG_pointer_type",
+                          "DW_TAG_ptr_to_member_type", "DW_TAG_unspecified_type", "DW_TAG_structure_type", "DW_TAG_enumeration_type", "DW_TAG_subrange_type", "DW_TAG_packed_type"):
+                ty, en, nm = td.attr("DW_AT_type"), td.attr("DW_AT_encoding"), td.attr("DW_AT_name")
+                kids = ",".join("%d:%s" % (C(k.tag), C(k.attr("DW_AT_const_value").form) if k.attr("DW_AT_const_value") else "-") for k in td.children) or "-"
+                tl.append("T %d %d %s %s %d %s" % (td.off, C(td.tag), ty.value.off if ty is not None else "-", en.value if en is not None else "-",
+                                                  1 if nm is not None and bytes(nm.value) == b"decltype(nullptr)" else 0, kids))
+        cv = [(die, a, c) for die, a, c in tests if a.name == "DW_AT_const_value"]
+        for die, a, c in cv:
+            if die.tag == "DW_TAG_enumerator":
+                tl.append("E %d" % die.parent.off)
+            else:
+                ty = die.attr("DW_AT_type")
+                tl.append("V %s" % (ty.value.off if ty is not None else "-"))
+        rc, out, err = common.run([common.model_bin(), "tctx"], input="\n".join(tl) + "\n", timeout=300)
+        mctx = out.split("\n")[:-1]
+        if len(mctx) != len(cv):
+            raise RuntimeError("zwmodel tctx: %d answers for %d (%s)" % (len(mctx), len(cv), err[-200:]))
+        ctx_of = {}
+        for (die, a, c), mc in zip(cv, mctx):
+            if c is not None and mc != c:
+                raise RuntimeError("type context of DIE %#x (%s): the generator says %r, the model of get_type_die %r" % (die.off, die.tag, c, mc))
+            ctx_of[id(die)] = mc
+        nctx = len(cv)
         B = Builder()
         mlines, qlines = [], []
         for die, a, c in tests:
+            c = ctx_of.get(id(die), c)
             raw = B.raw_text(a)
             if raw == "REF":
                 raw = "REF %d" % a.value.off
